@@ -403,7 +403,11 @@ impl Monitor for Mon07 {
         }
         out.count("qualifying_attempts");
         let pr = &lp.pr;
-        let (r, _, _, _) = lp.ratio.clone()?;
+        let r = match lp.ratio.clone() {
+            Some((r, _, _, _)) => r,
+            // qualified through the recomputed TWAP only
+            None => ratio_by_harness_twap(w, s.pre, v, &lp.pr).map(|(_, hi)| hi)?,
+        };
         let frac = s.pre.ecfg.partial_liquidation_ratio.u128();
         let vault = s.pre.bal[w.idx_engine()];
         let d = w.d;
